@@ -352,7 +352,13 @@ pub fn run_case(case: &Case) -> CaseResult {
                         st.label("structural-op-with-pending-lazy");
                     }
                     let pos = pick(*pos, ip.pool[t].m.len() + 1);
-                    let it = ip.fresh(*v);
+                    let mut it = ip.fresh(*v);
+                    if v % 5 == 3 {
+                        // a one-element subtree that already carries a modification (lawful: its own value is current, the
+                        // modification is owed to children it does not have) - it must not reach anybody else
+                        it.apply(&md_from_raw(v.rotate_left(13)));
+                        st.label("insert-item-with-pending-modification");
+                    }
                     ip.pool[t].m.insert(pos, (it.id, it.val));
                     ip.pool[t].t.insert_at(pos, it);
                     touched.push(t);
@@ -512,11 +518,31 @@ pub fn run_case(case: &Case) -> CaseResult {
                     let l = pick(*l, len);
                     let r = l + pick(*r, len - l);
                     let md = md_from_raw(*m);
+                    if l == 0 && r == len - 1 && m % 3 != 0 {
+                        // the whole treap: attach to its present root, without any split (the root may have been pushed by an
+                        // earlier collect / first / last / split path)
+                        if m % 2 == 0 {
+                            ip.pool[t].t.root_mut().unwrap().apply(&md);
+                        } else {
+                            ip.pool[t].t.root.as_mut().unwrap().item.apply(&md);
+                        }
+                        for e in ip.pool[t].m.iter_mut() {
+                            e.1 = aff(&md, e.1);
+                        }
+                        st.label("modification-attached-to-the-existing-root");
+                        touched.push(t);
+                    } else {
                     let whole = std::mem::replace(&mut ip.pool[t].t, Treap::new());
                     let (t12, t3) = whole.split_at(r + 1);
                     let (t1, mut t2) = t12.split_at(l);
                     vensure!(t2.size() == r - l + 1, "split_at/middle-size", "step {}: middle part [{}..={}] has size {}", step, l, r, t2.size());
-                    t2.root_mut().unwrap().apply(&md);
+                    if m % 3 == 1 {
+                        // attached through the public node fields instead of root_mut()
+                        t2.root.as_mut().unwrap().item.apply(&md);
+                        st.label("modification-attached-through-public-fields");
+                    } else {
+                        t2.root_mut().unwrap().apply(&md);
+                    }
                     for e in ip.pool[t].m[l..=r].iter_mut() {
                         e.1 = aff(&md, e.1);
                     }
@@ -525,6 +551,7 @@ pub fn run_case(case: &Case) -> CaseResult {
                         st.label("range-modify-on-2+");
                     }
                     touched.push(t);
+                    }
                 }
             }
             Op::Move { t, from, u, to } => {
